@@ -107,10 +107,17 @@ def count_errors(y: np.ndarray, home_streak_min: int,
     opposing team `B` would have necessarily incured the exactly same
     violations. These are then not counted.
 
-    As upper bound for the number of errors, we therefore have to add those of
-    constraints 2, 9, and 10 and get `(2*D - 1) * n + D*n - 1 + D*n`, which
-    gives us `(4*D - 1) * n - 1, where `D = (n - 1) * rounds`.
-    The lower bound is obviously `0`.
+    As upper bound for the number of errors, we add up what each team can
+    contribute on each of the `D = (n - 1) * rounds` days: one error for a
+    missing or inconsistent game (constraints 1, 2), at most
+    `P = max(1, home_streak_min - 1, away_streak_min - 1)` streak errors
+    (constraints 3-6, plus once more for the streak that is open when the
+    plan ends), and - except on the first day - at most
+    `S = max(separation_min, D - 2 - separation_max, 0)` separation errors
+    (constraints 7, 8). The final pass over all pairings (constraints 9, 10)
+    can add at most `5*D*n/2` errors, because at most `D*n` home games are
+    counted. This gives `n * (D + (D + 1)*P + (D - 1)*S) + 5*D*n/2`, see
+    :meth:`Errors.upper_bound`. The lower bound is obviously `0`.
 
     :param y: the game plan
     :param home_streak_min: the minimum permitted home streak length
@@ -356,17 +363,24 @@ class Errors(Objective):
 
     def upper_bound(self) -> int:
         """
-        Compute upper bound for errors: `(4*D - 1) * n - 1`.
+        Compute upper bound for errors.
 
         Here `D` is the number of days, `n` is the number of teams, and
         `D = (n - 1) * rounds`. See the documentation of :func:`count_errors`.
 
-        :return: `(4*D - 1) * n - 1`
+        :return: `n * (D + (D + 1)*P + (D - 1)*S) + 5*D*n/2`, with
+            `P = max(1, home_streak_min - 1, away_streak_min - 1)` and
+            `S = max(0, separation_min, D - 2 - separation_max)`
         """
-        n: Final[int] = self.instance.n_cities
-        rounds: Final[int] = self.instance.rounds
-        days: Final[int] = (n - 1) * rounds
-        return (4 * days - 1) * n - 1
+        inst: Final[Instance] = self.instance
+        n: Final[int] = inst.n_cities
+        days: Final[int] = (n - 1) * inst.rounds
+        streak: Final[int] = max(1, inst.home_streak_min - 1,
+                                 inst.away_streak_min - 1)
+        sep: Final[int] = max(0, inst.separation_min,
+                              days - 2 - inst.separation_max)
+        return (n * (days + ((days + 1) * streak) + ((days - 1) * sep))) \
+            + ((5 * days * n) // 2)
 
     def is_always_integer(self) -> bool:
         """
